@@ -162,6 +162,11 @@ def run_job(job) -> report.JobResult:
                 if empty and entry == "wsgi_form":
                     continue
                 eng = Engine(budget_s=job.get("budget", 900))
+                # the helpers take limits: any setting at or above this form's own totals must leave the result untouched, for every chunking
+                lim_parts, lim_mem = z3.Int("max_form_parts"), z3.Int("max_form_memory_size")
+                limited = entry in ("parse_stream", "parse_async_stream")
+                if limited:
+                    eng.solver.add(lim_parts >= len(parts), lim_mem >= sum(len(p.content) for p in parts if p.kind == "field"))
                 for kind, vs in allvars:
                     for v in vs:
                         eng.solver.add(v >= 0, v <= (127 if kind == "field" else 255))
@@ -177,7 +182,7 @@ def run_job(job) -> report.JobResult:
                         if SBytes(p.content).find(delim) != -1:
                             raise Engine.cur._raise(Pruned())
                     chunks = [C.mk_chunk(c) for c in C.split(body, cuts, empty)]
-                    got = C.run_entry(entry, chunks, boundary)
+                    got = C.run_entry(entry, chunks, boundary, limits={"max_form_parts": SInt(lim_parts), "max_form_memory_size": SInt(lim_mem)} if limited else None)
                     # field text is the UTF-8 decoding of the field's bytes (symbolic bytes of fields are ASCII, fixed fragments may be multi-byte)
                     exp_now = []
                     for x in exp:
@@ -188,7 +193,7 @@ def run_job(job) -> report.JobResult:
                             exp_now.append(x)
                     return got, exp_now
 
-                def on_path(e, r, entry=entry, cuts=cuts, empty=empty):
+                def on_path(e, r, entry=entry, cuts=cuts, empty=empty, limited=limited, lim_parts=lim_parts, lim_mem=lim_mem):
                     kind, v = r
                     if twin:
                         klass = "twin-assert-false"
@@ -201,14 +206,15 @@ def run_job(job) -> report.JobResult:
                         e.check()
                     m = e.solver.model()
                     cbody = bytes(conc(body, m))
+                    climits = {"max_form_parts": m.eval(lim_parts, True).as_long(), "max_form_memory_size": m.eval(lim_mem, True).as_long()} if limited else None
                     with shims.off():
-                        real = C.run_concrete(entry, cbody, cuts, boundary, empty)
+                        real = C.run_concrete(entry, cbody, cuts, boundary, empty, limits=climits)
                     cexp = concrete_expected(parts, m, raw=(entry == "decoder"))
                     if klass is not None:
                         reproduced = (real != cexp) or twin
                         res.violation(f"C01/{entry}/{klass.split(':')[0]}",
                                       {"body_hex": cbody.hex(), "cuts": cuts, "empty_chunks": empty, "boundary": boundary.decode("latin-1"),
-                                       "entry": entry, "expected": repr(cexp)},
+                                       "entry": entry, "expected": repr(cexp), "limits": climits},
                                       f"{klass}; real result {real!r}"[:600], reproduced)
                         return
                     res.kind("decoded")
@@ -280,6 +286,6 @@ def jobs(tier: str):
 def replay(rec) -> int:
     w = rec["witness"]
     body = bytes.fromhex(w["body_hex"])
-    real = C.run_concrete(w["entry"], body, w["cuts"], w["boundary"].encode("latin-1"), w.get("empty_chunks", False))
+    real = C.run_concrete(w["entry"], body, w["cuts"], w["boundary"].encode("latin-1"), w.get("empty_chunks", False), limits=w.get("limits"))
     print(f"replay C01: entry={w['entry']} cuts={w['cuts']} body={body!r}\n  real     = {real!r}\n  expected = {w['expected']}")
     return 1 if repr(real) != w["expected"] else 0
